@@ -9,6 +9,7 @@ package main
 //   * backward data-dependence slices (DEP)
 
 import (
+	"fmt"
 	"go/constant"
 	"go/token"
 	"go/types"
@@ -991,4 +992,89 @@ func LinPaths(fn *ssa.Function, start ssa.Instruction, cuts []EdgeCut, stop func
 		}
 	}
 	return out
+}
+
+// ---- linear forms over several symbols -------------------------------------------------------------
+
+// LinForm is c + Σ coeff·symbol. Symbols are SSA values that are not sums (named by their register; calls to
+// the functions in pureGetters are named by callee and argument symbols, because go/ssa has no CSE).
+type LinForm struct {
+	C int64
+	T map[string]int64
+}
+
+func (f LinForm) String() string {
+	var ks []string
+	for k, c := range f.T {
+		if c != 0 {
+			ks = append(ks, fmt.Sprintf("%+d*%s", c, k))
+		}
+	}
+	sort.Strings(ks)
+	return fmt.Sprintf("%s %+d", strings.Join(ks, " "), f.C)
+}
+
+func (f LinForm) Sub(g LinForm) LinForm {
+	out := LinForm{f.C - g.C, map[string]int64{}}
+	for k, c := range f.T {
+		out.T[k] += c
+	}
+	for k, c := range g.T {
+		out.T[k] -= c
+	}
+	for k, c := range out.T {
+		if c == 0 {
+			delete(out.T, k)
+		}
+	}
+	return out
+}
+
+func (f LinForm) IsZero() bool { return f.C == 0 && len(f.Sub(LinForm{}).T) == 0 }
+
+func (f LinForm) Equal(g LinForm) bool { return f.Sub(g).IsZero() }
+
+// Positive keeps the symbols with a positive coefficient (and no constant).
+func (f LinForm) Positive() LinForm {
+	out := LinForm{0, map[string]int64{}}
+	for k, c := range f.T {
+		if c > 0 {
+			out.T[k] = c
+		}
+	}
+	return out
+}
+
+func linForm(v ssa.Value, pureGetters map[*types.Func]bool, depth int) LinForm {
+	v = stripConv(v)
+	if cv, ok := constOf(v); ok {
+		if i, ok := constant.Int64Val(constant.ToInt(cv)); ok {
+			return LinForm{i, map[string]int64{}}
+		}
+	}
+	if bo, ok := v.(*ssa.BinOp); ok && depth < 30 && (bo.Op == token.ADD || bo.Op == token.SUB) {
+		l, r := linForm(bo.X, pureGetters, depth+1), linForm(bo.Y, pureGetters, depth+1)
+		if bo.Op == token.SUB {
+			return l.Sub(r)
+		}
+		return l.Sub(LinForm{0, map[string]int64{}}.Sub(r))
+	}
+	return LinForm{0, map[string]int64{symKey(v, pureGetters, depth): 1}}
+}
+
+func symKey(v ssa.Value, pureGetters map[*types.Func]bool, depth int) string {
+	v = stripConv(v)
+	if c, ok := v.(*ssa.Call); ok && depth < 30 {
+		if o := CalleeObj(c); o != nil && pureGetters[o] {
+			var as []string
+			for _, a := range c.Call.Args {
+				as = append(as, symKey(a, pureGetters, depth+1))
+			}
+			return o.Name() + "(" + strings.Join(as, ",") + ")"
+		}
+	}
+	if cv, ok := constOf(v); ok {
+		return cv.String()
+	}
+	return v.Name()
 }
